@@ -4,6 +4,8 @@ package c07
 
 import (
 	"fmt"
+	"regexp"
+	"strings"
 	"testing"
 	"time"
 
@@ -15,6 +17,7 @@ import (
 	"verif/internal/gen"
 	"verif/internal/hook"
 	"verif/internal/obs"
+	"verif/internal/refmodel"
 	"verif/internal/specdoc"
 )
 
@@ -85,6 +88,10 @@ func check(c Case) (out ev.Outcome) {
 		}
 		if o.Panic != "" {
 			hook.ResetPools()
+			if id, ok := ev.KnownOpen("ref_into_absent_section_panics_in_expander"); ok && refIntoAbsentSection(c.Doc, o.Panic) {
+				out.Known = append(out.Known, id)
+				continue
+			}
 			return ev.Failf("continue-on-errors=%v: spec validation panicked: %s [%s]", cont, o.Panic, obs.ShortStack(o.Stack))
 		}
 		if o.NilResults {
@@ -100,7 +107,11 @@ func check(c Case) (out ev.Outcome) {
 	if err == nil && pmsg == "" && doc != nil {
 		if msg, st := obs.Guard(func() { _ = validate.Spec(doc, strfmt.Default) }); msg != "" {
 			hook.ResetPools()
-			return ev.Failf("validate.Spec panicked: %s [%s]", msg, obs.ShortStack(st))
+			if id, ok := ev.KnownOpen("ref_into_absent_section_panics_in_expander"); ok && refIntoAbsentSection(c.Doc, msg) {
+				out.Known = append(out.Known, id)
+			} else {
+				return ev.Failf("validate.Spec panicked: %s [%s]", msg, obs.ShortStack(st))
+			}
 		}
 	}
 	out.Classes = append(out.Classes, "source:"+specdoc.SourceClass(c.Source))
@@ -114,6 +125,44 @@ func check(c Case) (out ev.Outcome) {
 func TestProp(t *testing.T)   { ev.Prop(t, true, genCase, check) }
 func TestReplay(t *testing.T) { ev.Replay(t, check) }
 func FuzzC07(f *testing.F)    { ev.FuzzProp(f, true, genCase, check) }
+
+var reNilSection = regexp.MustCompile(`^value method github\.com/go-openapi/spec\.\w+\.MarshalJSON called using nil \*\w+ pointer`)
+
+// refIntoAbsentSection recognises the recorded finding "a $ref that points into a top-level section the document
+// does not have (#/paths without paths, #/info without info) makes the expander of go-openapi/spec marshal a nil
+// section pointer, which panics": that very panic text, and such a reference in the document.
+func refIntoAbsentSection(docText, panicText string) bool {
+	if !reNilSection.MatchString(panicText) {
+		return false
+	}
+	raw, err := refmodel.Decode([]byte(docText))
+	top, ok := raw.(map[string]any)
+	if err != nil || !ok {
+		return false
+	}
+	found := false
+	var walk func(v any)
+	walk = func(v any) {
+		switch x := v.(type) {
+		case map[string]any:
+			if r, isStr := x["$ref"].(string); isStr && strings.HasPrefix(r, "#/") {
+				section := strings.SplitN(strings.TrimPrefix(r, "#/"), "/", 2)[0]
+				if member, present := top[section]; !present || member == nil {
+					found = true
+				}
+			}
+			for _, w := range x {
+				walk(w)
+			}
+		case []any:
+			for _, w := range x {
+				walk(w)
+			}
+		}
+	}
+	walk(raw)
+	return found
+}
 
 // knownCrasherOpen tells whether the recorded crasher is (still) listed as open; the witness
 // replay of the driver runs with all matchers off and therefore executes the crashing call.
